@@ -11,6 +11,7 @@ import FastorModel.Driver.Permute
 import FastorModel.Driver.RandomViews
 import FastorModel.Driver.Reduce
 import FastorModel.Driver.Horizontal
+import FastorModel.Driver.Layout
 /-
   `fmodel`: line-protocol driver.  Reads one case per line on stdin, prints the model's observables
   for it.  The harness prints the implementation's observables for the same case in the same format.
@@ -47,6 +48,8 @@ def step (line : String) : String :=
   | "pred" :: rest => runPred (parseKV rest)
   | "detqr" :: rest => runDetQR (parseKV rest)
   | "hstep" :: rest => runHstep (parseKV rest)
+  | "layout" :: rest => runLayout (parseKV rest)
+  | "mapops" :: rest => runMapops (parseKV rest)
   | _ => "bad-op"
 
 partial def loop (h : IO.FS.Stream) (out : IO.FS.Stream) : IO Unit := do
